@@ -200,10 +200,12 @@ def known_findings(prop):
 def tables_in_trace(trace):
     from .netmodel import TABLE_OF
     tabs = set()
-    for op in trace.get("program", {}).get("ops", []):
+    for op in trace.get("program", {}).get("ops", []) + [o for o in trace.get("ops", []) if isinstance(o, dict) and o.get("op") == "create"]:
         t = TABLE_OF.get(op.get("fn"))
         if t:
             tabs.add(t)
+        if t == "valve" and op.get("kw", {}).get("et") == "pi":
+            tabs.add("valve:pi")   # pseudo table: a valve attached to a pipe
     for nm in trace.get("nets", {}).values() if isinstance(trace.get("nets"), dict) else []:
         for op in nm.get("ops", []):
             t = TABLE_OF.get(op.get("fn"))
